@@ -179,8 +179,6 @@ func evaluatorAST(ev *bexpr.Evaluator) (grammar.Expression, bool) {
 const (
 	apiParse = 0
 	apiEval  = 1
-	// refCap bounds the statements an unlimited reference parse may execute
-	refCap = uint64(600000000)
 )
 
 var apiNames = []string{"grammar.Parse+MaxExpressions", "bexpr.CreateEvaluator+WithMaxExpressions"}
@@ -340,6 +338,11 @@ func budgetsFor(c *C11Case, S uint64, r *plan.Rand) (bs []uint64, exhaustive boo
 		}
 		if !c.NoRef {
 			geoMax = S + 2
+			if 6*S >= costCap {
+				// the sweep itself would blow the cost cap: stop it early, the
+				// threshold is still bracketed by the near-threshold budgets
+				geoMax = costCap / 6
+			}
 			var near, rnd uint64
 			if 6*S < costCap {
 				rest := (costCap - 6*S) / (S + 1)
@@ -354,6 +357,9 @@ func budgetsFor(c *C11Case, S uint64, r *plan.Rand) (bs []uint64, exhaustive boo
 			}
 			if near < 2 {
 				near = 2
+				if 6*S >= costCap {
+					near = 1
+				}
 			}
 			for d := uint64(0); d <= near; d++ {
 				add(S + d)
@@ -449,6 +455,10 @@ func RunC11Case(env *C11Env, c C11Case, seed uint64) C11Result {
 			return o, be
 		}
 		unlimited := func() uint64 {
+			refCap := uint64(60000000) // statements; about 2.6M parser steps
+			if c.Tier == "thorough" {
+				refCap = 700000000
+			}
 			verifsim.SetHardCap(verifsim.Steps() + refCap)
 			o, entries, _ := limitedParse(api, in, 0, false, 0, env.EntrySites)
 			verifsim.SetHardCap(0)
@@ -511,10 +521,14 @@ func RunC11Case(env *C11Env, c C11Case, seed uint64) C11Result {
 		}
 		if res.RefTooExpensive {
 			// the unlimited parse of this input blows up (exponential nesting):
-			// nothing can be compared against it; such inputs are covered by the
-			// pathological family, which never parses without a budget
-			res.Violations = nil
-			return res
+			// treat it like the pathological family, which never parses without a
+			// budget (geometric sweep; step bound, error shape and monotonicity only)
+			cc := c
+			cc.NoRef = true
+			cc.Order = order
+			r2 := RunC11Case(env, cc, seed)
+			r2.RefTooExpensive = true
+			return r2
 		}
 		if api == apiParse {
 			res.S = S
